@@ -148,12 +148,15 @@ def rebuildable(e):
         return False
 
 
+_EMPTY = ('skip_exc', ())      # marker: the empty tuple given explicitly (matches nothing)
+
+
 def skip_exc_cells(e):
     cls = type(e)
     base = cls.__mro__[1] if len(cls.__mro__) > 2 else cls
     unrelated = ZeroDivisionError if not isinstance(e, ZeroDivisionError) else LookupError
     return [('unset', None), ('type', cls), ('base', base), ('unrelated', unrelated), ('tuple', (unrelated, cls)),
-            ('GlomError', GlomError), ('Exception', Exception)]
+            ('GlomError', GlomError), ('Exception', Exception), ('empty-tuple', _EMPTY)]
 
 
 def matrix(e):
@@ -163,7 +166,9 @@ def matrix(e):
                 kw = {}
                 if has_default:
                     kw['default'] = SENT
-                if sk is not None:
+                if sk is _EMPTY:
+                    kw['skip_exc'] = ()
+                elif sk is not None:
                     kw['skip_exc'] = sk
                 if debug:
                     kw['glom_debug'] = True
@@ -489,6 +494,12 @@ def glom_detected(col):
         ('A without destination', 1, A, BadSpec), ('group bad spec', [1], Group('no strings'), BadSpec),
         ('group dict in list', [1], Group([{T: T}]), BadSpec), ('malformed spec', {}, 5, TypeError), ('malformed nested', {'a': 1}, {'k': 5}, TypeError),
         ('path on None', None, 'a', PathAccessError), ('index str', [1], 'x', PathAccessError),
+        # a failure INSIDE the subspec of a reduction is that failure, not the reduction's own "target not iterable"
+        ('unregistered inside Sum subspec', {'rows': 5}, Sum(('rows', [T])), UnregisteredTarget),
+        ('unregistered inside Flatten subspec', {'rows': None}, Flatten(('rows', [T])), UnregisteredTarget),
+        ('unregistered inside Merge subspec', {'rows': 2.5}, Merge(('rows', [T])), UnregisteredTarget),
+        ('unregistered inside Fold subspec', {'rows': 5}, Fold(('rows', [T]), init=int), UnregisteredTarget),
+        ('missing path inside Sum subspec', {}, Sum('rows'), PathAccessError),
     ]
     for name, target, spec, cls in table:
         for cell, kw in matrix(ValueError()):
